@@ -559,7 +559,7 @@ Section Proofs.
   (* a view of a delivered datagram whose three flags do not understate the facts *)
   Definition faithful (q : request) (g : dgram) (d : oview) : Prop :=
     o_payload d = g_payload g /\
-    (front_ok q g -> o_from_server d = true) /\
+    (front_ok q g -> o_from_server d = true /\ o_spao_ok d = true) /\
     (nts_ok q (g_payload g) -> o_uid_ok d = true /\ o_auth_ok d = true).
 
   Fixpoint dgrams_of (evs : list event) : list dgram :=
@@ -652,7 +652,8 @@ Section Proofs.
       - split; [reflexivity|]. split; [exact G8|]. left. reflexivity. }
     destruct Hst as (S1 & S2 & S3).
     rewrite !andb_true_iff. repeat split.
-    - exact (F2 G3).
+    - exact (proj1 (F2 G3)).
+    - exact (proj2 (F2 G3)).
     - apply Nat.leb_le. exact EL48.
     - exact Hor.
     - exact (o_meta_ok_metadata _ _ HB G4 G7).
@@ -662,6 +663,129 @@ Section Proofs.
       + left. apply Z.eqb_eq. exact S3.
       + right. rewrite S3a. apply Z.eqb_eq. exact S3b.
     - apply Z.leb_le. exact S2.
+  Qed.
+
+  (* ---- the SCION packet authenticator (SPAO, DRKey host-host key) ---- *)
+
+  (* the checks of the SCION client that precede the authenticator: the parse
+     succeeded, a SCION/UDP packet not shorter than it says, from the queried
+     ISD-AS and host, addressed to the client *)
+  Definition scion_pre_ok (q : request) (v : scion_view) : Prop :=
+    sv_decode_ok v = true /\ 2 <= sv_nlayers v /\ sv_last v = 0 /\ sv_len_ok v = true /\
+    sv_src_ia v = q_server_ia q /\ sv_src_host v = Some (q_server q) /\
+    sv_dst_ia v = q_local_ia q /\ sv_dst_host v = Some (q_local q).
+
+  (* the client holds the host-host key and the datagram carries, in an
+     end-to-end extension, an authenticator for the server's SPI and algorithm
+     whose MAC does not verify (or cannot be computed) *)
+  Definition spao_bad (q : request) (g : dgram) : Prop :=
+    exists v, g_front g = FrontSCION v /\ sv_e2e v = true /\ q_authkey q = true /\ sv_auth v = AuthMac false.
+
+  Lemma spao_bad_not_front_ok : forall q g, spao_bad q g -> ~ front_ok q g.
+  Proof.
+    intros q g (v & E & A & B & C) H. unfold front_ok in H. rewrite E in H.
+    destruct H as (_ & _ & _ & _ & _ & _ & _ & _ & H). exact (H A B C).
+  Qed.
+
+  (* wrong MAC: never an offset, whatever the rest of the datagram says *)
+  Theorem spao_bad_not_accepted : forall q g, spao_bad q g -> forall nr r, handle open q nr (EvDgram g) <> SAccept r.
+  Proof.
+    intros q g HB nr. apply handle_not_genuine. intros h (_ & _ & G3 & _).
+    exact (spao_bad_not_front_ok q g HB G3).
+  Qed.
+
+  Lemma front_check_spao_bad : forall q g v,
+    g_front g = FrontSCION v -> scion_pre_ok q v ->
+    sv_e2e v = true -> q_authkey q = true -> sv_auth v = AuthMac false ->
+    front_check q g = Some EScionAuth.
+  Proof.
+    intros q g v E (P1 & P2 & P3 & P4 & P5 & P6 & P7 & P8) A B C.
+    unfold front_check. rewrite E, P1, P3, P4, P5, P6, P7, P8, A, B, C.
+    apply Z.leb_le in P2. rewrite P2. rewrite !Z.eqb_refl. simpl. rewrite !Z.eqb_refl. reflexivity.
+  Qed.
+
+  (* wrong MAC on a datagram that is otherwise from the server: errInvalidPacketAuthenticator
+     under the one-retry rule *)
+  Theorem spao_bad_error : forall q nr g v,
+    flags_ok q g = true -> g_front g = FrontSCION v -> scion_pre_ok q v ->
+    sv_e2e v = true -> q_authkey q = true -> sv_auth v = AuthMac false ->
+    handle open q nr (EvDgram g) = retry q nr (g_before g) EScionAuth.
+  Proof.
+    intros q nr g v HF E HP A B C. unfold handle. rewrite HF. simpl.
+    rewrite (front_check_spao_bad q g v E HP A B C). reflexivity.
+  Qed.
+
+  (* [bad_mac q g]: everything the client checks before the authenticator is in order and the MAC is wrong *)
+  Definition bad_mac (q : request) (g : dgram) : Prop :=
+    flags_ok q g = true /\
+    exists v, g_front g = FrontSCION v /\ scion_pre_ok q v /\ sv_e2e v = true /\ q_authkey q = true /\ sv_auth v = AuthMac false.
+
+  Lemma bad_mac_handle : forall q nr g, bad_mac q g -> handle open q nr (EvDgram g) = retry q nr (g_before g) EScionAuth.
+  Proof. intros q nr g (HF & v & E & HP & A & B & C). exact (spao_bad_error q nr g v HF E HP A B C). Qed.
+
+  (* two wrong MACs in one measurement: the retry is used up, the call ends with the
+     authenticator error whatever follows (the genuine response included) *)
+  Theorem spao_two_bad : forall q g1 g2 rest,
+    bad_mac q g1 -> bad_mac q g2 ->
+    recv_loop open q 0 0 (EvDgram g1 :: EvDgram g2 :: rest) =
+    if q_deadline q && g_before g1 then LFail 1 EScionAuth else LFail 0 EScionAuth.
+  Proof.
+    intros q g1 g2 rest H1 H2. cbn [recv_loop].
+    rewrite (bad_mac_handle q 0 g1 H1). unfold retry at 1. cbn [Nat.eqb negb andb].
+    destruct (q_deadline q && g_before g1) eqn:E.
+    - rewrite (bad_mac_handle q 1 g2 H2). unfold retry. cbn [Nat.eqb negb andb]. reflexivity.
+    - reflexivity.
+  Qed.
+
+  (* wrong MAC, then the genuine response (deadline set and not reached): skipped, accepted *)
+  Theorem spao_bad_then_genuine : forall q g1 g2 h rest,
+    bad_mac q g1 -> q_deadline q = true -> g_before g1 = true ->
+    genuine q g2 h -> clock_sane q g2 h ->
+    recv_loop open q 0 0 (EvDgram g1 :: EvDgram g2 :: rest) = LAccept 1 (result_of q g2 h).
+  Proof.
+    intros q g1 g2 h rest H1 HD HB HG HC. cbn [recv_loop].
+    rewrite (bad_mac_handle q 0 g1 H1). unfold retry. cbn [Nat.eqb negb andb]. rewrite HD, HB. cbn [andb].
+    rewrite (handle_genuine q 1 g2 h HG HC). reflexivity.
+  Qed.
+
+  (* the request of a client without the host-host key *)
+  Definition without_authkey (q : request) : request :=
+    {| q_scion := q_scion q; q_server := q_server q; q_server_ia := q_server_ia q; q_local_ia := q_local_ia q;
+       q_local := q_local q; q_authkey := false; q_bufcap := q_bufcap q; q_deadline := q_deadline q;
+       q_nts := q_nts q; q_uid := q_uid q; q_s2c := q_s2c q; q_ireq := q_ireq q; q_rx := q_rx q; q_tx := q_tx q;
+       q_ref := q_ref q; q_ctx1 := q_ctx1 q; q_pctx := q_pctx q; q_psrx := q_psrx q; q_pcrx := q_pcrx q |}.
+
+  (* a datagram without an authenticator the client looks at (none, other SPI /
+     algorithm / length, no end-to-end extension), or with one whose MAC verifies,
+     is handled by the client that holds the key exactly as by a client without
+     key: a response is NOT required to be authenticated *)
+  Theorem spao_absent_as_without_key : forall q nr g,
+    (forall v, g_front g = FrontSCION v -> sv_e2e v = true -> sv_auth v <> AuthMac false) ->
+    handle open q nr (EvDgram g) = handle open (without_authkey q) nr (EvDgram g).
+  Proof.
+    intros q nr g HA.
+    assert (HFC : front_check q g = front_check (without_authkey q) g).
+    { unfold front_check. destruct (g_front g) as [src|v] eqn:E; [reflexivity|].
+      cbn [without_authkey q_server_ia q_server q_local_ia q_local q_authkey].
+      destruct (sv_e2e v) eqn:E2; [|reflexivity].
+      destruct (q_authkey q); [|reflexivity].
+      specialize (HA v eq_refl E2).
+      destruct (sv_auth v) as [|[|]]; try reflexivity. exfalso. apply HA. reflexivity. }
+    unfold handle. rewrite <- HFC. reflexivity.
+  Qed.
+
+  (* what an accepted datagram of the SCION client has passed *)
+  Theorem scion_accept_clauses : forall q evs i r g v,
+    recv_loop open q 0 0 evs = LAccept i r -> nth_error evs i = Some (EvDgram g) -> g_front g = FrontSCION v ->
+    scion_pre_ok q v /\
+    (sv_e2e v = true -> q_authkey q = true -> sv_auth v <> AuthMac false) /\
+    (q_nts q = true -> nts_ok q (g_payload g)).
+  Proof.
+    intros q evs i r g v HL HN E. apply recv_loop_accept in HL.
+    destruct HL as (_ & g' & h & H1 & HG & _). rewrite HN in H1. inversion H1; subst g'. clear H1.
+    destruct HG as (_ & _ & G3 & _ & G5 & _). unfold front_ok in G3. rewrite E in G3.
+    destruct G3 as (A1 & A2 & A3 & A4 & A5 & A6 & A7 & A8 & A9).
+    split; [unfold scion_pre_ok; tauto|]. split; [exact A9|exact G5].
   Qed.
 
   (* ---- the clauses of [genuine], spelled out per transport ---- *)
